@@ -42,6 +42,15 @@ def run(ctx):
         sp['opts']['n_inj'] = 3 if ctx.tier == 'quick' else 8
         sub.append(sp)
     specs += sub
+    # the balance of one node is not modelled (skip_nodes): prices of the other nodes, whatever the position of the skipped node
+    skp = gen.gen_many(ctx.seed, n // 2, dict(CFG, nodes=(2, 3), p_coarse=0.0, p_periodic=0.0, n_assets=(2, 4), p_market=0.7,
+                                              kinds={'SimpleContract': 2, 'Transport': 4, 'Storage': 2, 'MultiCommodityContract': 1}), 'c18sk_')
+    for sp in skp:
+        rng = random.Random(str(sp['seed']) + '/skip')
+        nn = node_names(sp['assets'])
+        sp['opts']['skip_nodes'] = [nn[0] if rng.random() < 0.6 else rng.choice(nn)]
+        sp['opts']['n_inj'] = 4 if ctx.tier == 'quick' else 8
+    specs += skp
     specs = ctx.specs(specs)
     res = C.run_impl('prices', specs)
     exprs, owners = [], []
